@@ -20,5 +20,75 @@ __CPROVER_ensures(RV == vp_sub_oracle(g_nt, g_t0, g_t1, g_t2, body, len))
 __CPROVER_ensures(g_nt == 0 ==> !RV)
 __CPROVER_ensures(((g_nt > 0 && g_t0->len == 0) || (g_nt > 1 && g_t1->len == 0) || (g_nt > 2 && g_t2->len == 0)) ==> RV)
 ;
+
+/* ---- C05/C15: arrival of a published message -------------------------------
+ * Per context, independently of the other contexts:
+ *   delivered  <=>  ORACLE (g_m0 / g_m1: some current topic of THAT context is a
+ *   prefix of the body) and the context can take it; a full queue loses exactly
+ *   one message: the oldest if prefer_new, otherwise the new one is not enqueued.
+ * The delivered message has the arriving body (ghost index g_k / byte g_b).  */
+#define SB_M   (g_pp->aio_recv.a_msg)
+#define SB_C0  (&g_s->master)
+#define SB_LEN OLD(SB_M->m_body.ch_len)
+/* "context c takes the message": it matches and the drop policy lets it in */
+#define SB_TAKES(c, M) ((M) && !(SUB_FULL_OLD(c) && !(c)->prefer_new))
+/* context c is left exactly as it was */
+#define SB_CTX_SAME(c, Q)                                                                              \
+	((c)->lmq.lmq_len == OLD((c)->lmq.lmq_len) && (c)->lmq.lmq_get == OLD((c)->lmq.lmq_get) &&        \
+	    (Q).n == OLD((Q).n) && (g_j >= (c)->lmq.lmq_len || LMQ_VIEW(&(c)->lmq, g_j) == OLD(LMQ_VIEW(&(c)->lmq, g_j))))
+/* appended at the tail, older entries keep their place */
+#define SB_CTX_APPENDED(c, Q, D)                                                                       \
+	((c)->lmq.lmq_len == OLD((c)->lmq.lmq_len) + 1 && (Q).n == OLD((Q).n) &&                           \
+	    LMQ_VIEW(&(c)->lmq, (c)->lmq.lmq_len - 1) == (D) &&                                            \
+	    (g_j >= OLD((c)->lmq.lmq_len) || LMQ_VIEW(&(c)->lmq, g_j) == OLD(LMQ_VIEW(&(c)->lmq, g_j))))
+/* full queue, prefer_new: the OLDEST one leaves (released once), the rest move up, the new one is last */
+#define SB_CTX_ROTATED(c, Q, D)                                                                        \
+	((c)->lmq.lmq_len == OLD((c)->lmq.lmq_len) && (Q).n == OLD((Q).n) &&                               \
+	    LMQ_VIEW(&(c)->lmq, (c)->lmq.lmq_len - 1) == (D) &&                                            \
+	    (g_j + 1 >= (c)->lmq.lmq_len || g_j >= LMQ_MAXALLOC || LMQ_VIEW(&(c)->lmq, g_j) == OLD(LMQ_VIEW(&(c)->lmq, g_j + 1))))
+
+#ifdef SUB_RECV_FAILED
+/* case A (own unit): the receive failed => the peer is disconnected, nothing else happens */
+static void sub0_recv_cb(void *arg)
+__CPROVER_requires(arg == g_pp && VP_NO_LOCK_HELD && g_pp->aio_recv.a_result != 0)
+__CPROVER_requires(LMQ_INNER_PRE(&SB_C0->lmq) && VP_AIOQS_PRE)
+__CPROVER_assigns(VP_PROTO_GHOST_LIST)
+__CPROVER_ensures(VP_NO_LOCK_HELD)
+__CPROVER_ensures(g_pipe_close_calls == OLD(g_pipe_close_calls) + 1 && g_pipe_close_last == g_pp->pipe && g_fin_calls == OLD(g_fin_calls) && g_pipe_recv_calls == OLD(g_pipe_recv_calls) && SB_C0->lmq.lmq_len == OLD(SB_C0->lmq.lmq_len) && g_qa.n == OLD(g_qa.n) && g_qb.n == OLD(g_qb.n))
+;
+#elif SUB_NC == 1
+/* case B: one context (the socket itself) */
+static void sub0_recv_cb(void *arg)
+__CPROVER_requires(arg == g_pp && VP_NO_LOCK_HELD && g_nc == 1 && g_s->num_contexts == 1)
+__CPROVER_requires(g_pp->aio_recv.a_result == 0 && SUB_WIRE_MSG(SB_M) && CH_GHOST_PRE(&SB_M->m_body))
+__CPROVER_requires(SUB_CTX_PRE(SB_C0, g_qa))
+__CPROVER_requires(VP_AIOQS_PRE && g_qb.n == 0 && VP_AIO_NOT_QUEUED(&g_pp->aio_recv))
+/* ghost equation: g_m0 is the ORACLE value for the arriving body under the context's current topics */
+__CPROVER_requires(g_m0 == vp_sub_oracle(g_nt, g_t0, g_t1, g_t2, SB_M->m_body.ch_ptr, SB_M->m_body.ch_len))
+__CPROVER_assigns(g_pp->aio_recv.a_msg, *SB_M, VP_PROTO_GHOST_LIST, VP_SYNC_GHOSTS, g_free_calls, g_alloc_ok, g_alloc_fail, g_cl, g_cl_ran,
+    __CPROVER_object_whole(g_cl_fin_aio), __CPROVER_object_whole(g_cl_fin_msg), __CPROVER_object_whole(g_cl_fin_rv), __CPROVER_object_whole(g_cl_fin_count))
+__CPROVER_assigns(SB_C0->lmq.lmq_put, SB_C0->lmq.lmq_get, SB_C0->lmq.lmq_len, __CPROVER_object_whole(SB_C0->lmq.lmq_msgs))
+__CPROVER_assigns(SB_C0->lmq.lmq_len > 0: *LMQ_VIEW(&SB_C0->lmq, 0))
+__CPROVER_assigns(g_qa.n > 0: g_qa.head->a_msg, g_qa.head->a_result, g_qa.head->a_count)
+__CPROVER_frees(SB_M, SB_M->m_body.ch_buf)
+__CPROVER_frees(SB_C0->lmq.lmq_len > 0: LMQ_VIEW(&SB_C0->lmq, 0), LMQ_VIEW(&SB_C0->lmq, 0)->m_body.ch_buf)
+__CPROVER_ensures(VP_NO_LOCK_HELD && VP_AIOQS_OK && LMQ_WF_SCALAR(&SB_C0->lmq))
+/* the next receive is armed, the peer stays connected, at most one completion */
+__CPROVER_ensures(g_pipe_recv_calls == OLD(g_pipe_recv_calls) + 1 && g_pipe_recv_pipe == g_pp->pipe && g_pipe_recv_aio == &g_pp->aio_recv && g_pp->aio_recv.a_msg == NULL && g_pipe_close_calls == OLD(g_pipe_close_calls))
+/* NOT taken (no matching subscription, or queue full and prefer_new off): context untouched, message released */
+__CPROVER_ensures(!SB_TAKES(SB_C0, g_m0) ==> (SB_CTX_SAME(SB_C0, g_qa) && g_fin_calls == OLD(g_fin_calls) && __CPROVER_was_freed(OLD(SB_M)) && g_pollr == OLD(g_pollr)))
+/* taken: never freed, never copied, body and length untouched, origin pipe recorded */
+__CPROVER_ensures(SB_TAKES(SB_C0, g_m0) ==> (!__CPROVER_was_freed(OLD(SB_M)) && OLD(SB_M)->m_refcnt.v == 1 && OLD(SB_M)->m_pipe == g_pipe_id && OLD(SB_M)->m_body.ch_len == SB_LEN && g_alloc_ok == OLD(g_alloc_ok)))
+__CPROVER_ensures((SB_TAKES(SB_C0, g_m0) && g_k < SB_LEN) ==> OLD(SB_M)->m_body.ch_ptr[g_k] == g_b)
+/* a receiver is waiting: the first one gets it, once */
+__CPROVER_ensures((SB_TAKES(SB_C0, g_m0) && OLD(g_qa.n) > 0) ==> (g_fin_calls == OLD(g_fin_calls) + 1 && g_fin_last == OLD(g_qa.head) && g_fin_last_rv == 0 && g_fin_last_count == SB_LEN && g_fin_last_msg == OLD(SB_M) && g_qa.n == OLD(g_qa.n) - 1 && SB_C0->lmq.lmq_len == OLD(SB_C0->lmq.lmq_len)))
+/* room in the queue: appended, socket readable */
+__CPROVER_ensures((SB_TAKES(SB_C0, g_m0) && OLD(g_qa.n) == 0 && !SUB_FULL_OLD(SB_C0)) ==> (SB_CTX_APPENDED(SB_C0, g_qa, OLD(SB_M)) && g_fin_calls == OLD(g_fin_calls) && g_pollr))
+/* queue full, prefer_new: exactly one message leaves - the oldest */
+__CPROVER_ensures((SB_TAKES(SB_C0, g_m0) && OLD(g_qa.n) == 0 && SUB_FULL_OLD(SB_C0)) ==> (SB_CTX_ROTATED(SB_C0, g_qa, OLD(SB_M)) && g_fin_calls == OLD(g_fin_calls) && g_pollr))
+__CPROVER_ensures((SB_TAKES(SB_C0, g_m0) && OLD(g_qa.n) == 0 && SUB_FULL_OLD(SB_C0) && OLD(LMQ_VIEW(&SB_C0->lmq, 0)->m_refcnt.v) == 1) ==> __CPROVER_was_freed(OLD(LMQ_VIEW(&SB_C0->lmq, 0))))
+__CPROVER_ensures((SB_TAKES(SB_C0, g_m0) && OLD(g_qa.n) == 0 && SUB_FULL_OLD(SB_C0) && OLD(LMQ_VIEW(&SB_C0->lmq, 0)->m_refcnt.v) > 1) ==> (!__CPROVER_was_freed(OLD(LMQ_VIEW(&SB_C0->lmq, 0))) && OLD(LMQ_VIEW(&SB_C0->lmq, 0))->m_refcnt.v == OLD(LMQ_VIEW(&SB_C0->lmq, 0)->m_refcnt.v) - 1))
+;
+#endif
 /* clang-format on */
 #endif
